@@ -44,6 +44,10 @@ CONSTANTS Hash,        \* entry hashes
                        \* for another database by an authorised writer): queued and fetched, refused at the join
           Cached,      \* entries the store can load from its own cache (a replica restarted and not yet loaded): its
                        \* Load may run while requests are queued or being fetched
+          Flaky,       \* hashes whose block may fail to be read while a request is served (a transient error of the
+                       \* block store or of the provider); no read fails once the final request has been made
+          Forget,      \* TRUE (repaired tree): a hash whose fetch failed is kept as missing and queued again with the
+                       \* next request; FALSE (pinned): it is recorded as fetched like any other
           Abort,       \* announced heads whose hash does not match their contents: Sync gives the whole announcement up
           NReq,        \* requests are 1..NReq; request NReq is never cancelled
           ReqHeads,    \* request -> sequence of hashes
@@ -71,23 +75,26 @@ Init == /\ tasks = [h \in Hash |-> "none"]
         /\ req = [q \in Reqs |-> "new"] /\ ctx = [q \in Reqs |-> "live"]
         /\ workers = <<>> /\ bus = <<>> /\ cancels = 0
 
-Known(h) == tasks[h] # "none" \/ h \in log
+Known(h) == tasks[h] \notin {"none", "missing"} \/ h \in log
 
 \* queue the not yet known hashes of a sequence, in order, one new worker each
 RECURSIVE Enq(_, _, _, _, _)
 Enq(hs, q, tk, qu, ws) ==
     IF hs = <<>> THEN [tk |-> tk, qu |-> qu, ws |-> ws]
     ELSE LET h == Head(hs) IN
-         IF tk[h] # "none" \/ h \in log
+         IF tk[h] \notin {"none", "missing"} \/ h \in log
             THEN Enq(Tail(hs), q, tk, qu, ws)
             ELSE Enq(Tail(hs), q, [tk EXCEPT ![h] = "added"], Append(qu, h),
                      Append(ws, [req |-> q, pc |-> "spawned", item |-> 0]))
 
 Request(q) ==
     /\ req[q] = "new"
-    /\ (q = NReq => \A p \in Reqs \ {NReq} : req[p] # "new")    \* the final request comes last
-    /\ LET hs == IF \E i \in DOMAIN ReqHeads[q] : ReqHeads[q][i] \in Abort THEN <<>>
-                 ELSE IF Pinned THEN ReqHeads[q] ELSE SelectSeq(ReqHeads[q], LAMBDA h : h \notin (Bad \ SyncPass))
+    /\ (q = NReq => \A p \in Reqs \ {NReq} : req[p] # "new")    \* the final request comes last ...
+    /\ (q = NReq => \A w \in W : workers[w].pc # "failed")      \* ... and later than every fetch that failed
+    /\ LET hs0 == IF \E i \in DOMAIN ReqHeads[q] : ReqHeads[q][i] \in Abort THEN <<>>
+                  ELSE IF Pinned THEN ReqHeads[q] ELSE SelectSeq(ReqHeads[q], LAMBDA h : h \notin (Bad \ SyncPass))
+           \* every request that reaches the replicator first queues again what could not be fetched earlier
+           hs  == IF hs0 = <<>> THEN <<>> ELSE SetToSeq({h \in Hash : tasks[h] = "missing"}) \o hs0
            r  == Enq(hs, q, tasks, queue, workers) IN
          /\ tasks' = r.tk /\ queue' = r.qu /\ workers' = r.ws
     /\ req' = [req EXCEPT ![q] = "running"]
@@ -128,6 +135,13 @@ FetchOk(w) ==
          ELSE SetW(w, "fetched", workers[w].item) /\ buffer' = Append(buffer, workers[w].item)
     /\ UNCHANGED <<tasks, queue, inProg, sem, log, req, ctx, bus, cancels>>
 
+\* the block cannot be read although the worker's context is live (transient error)
+FetchErr(w) ==
+    /\ w \in W /\ workers[w].pc = "infetch" /\ WLive(w)
+    /\ workers[w].item \in Flaky /\ req[NReq] = "new"
+    /\ SetW(w, "failed", workers[w].item)
+    /\ UNCHANGED <<tasks, queue, inProg, sem, buffer, log, req, ctx, bus, cancels>>
+
 \* the block is not obtained: the context ended while it was being fetched
 FetchFail(w) ==
     /\ w \in W /\ workers[w].pc = "infetch" /\ ~WLive(w) /\ workers[w].item \notin Local
@@ -140,7 +154,7 @@ Finish(w) ==
            ok == workers[w].pc = "fetched"
            ls == IF ok THEN Links[it] ELSE <<>>
            r  == Enq(ls, workers[w].req, tasks, queue, workers)
-           tk == [r.tk EXCEPT ![it] = "fetched"]
+           tk == [r.tk EXCEPT ![it] = IF ok \/ ~Forget THEN "fetched" ELSE "missing"]
        IN  /\ tasks' = tk /\ queue' = r.qu
            /\ workers' = [r.ws EXCEPT ![w] = [req |-> @.req, pc |-> "done", item |-> it]]
            /\ inProg' = inProg - 1 /\ sem' = sem - 1
@@ -185,6 +199,7 @@ Next == \/ StoreLoad
         \/ \E w \in 1..MaxW : FetchStart(w)
         \/ \E w \in 1..MaxW : FetchOk(w)
         \/ \E w \in 1..MaxW : FetchFail(w)
+        \/ \E w \in 1..MaxW : FetchErr(w)
         \/ \E w \in 1..MaxW : Finish(w)
         \/ \E q \in Reqs : Return(q)
         \/ \E q \in Reqs : Cancel(q)
@@ -210,7 +225,8 @@ NoWedge == Quiet => GoodReach(SeqToSet(ReqHeads[NReq])) \subseteq log
 NoHang  == Quiet => (\A w \in W : workers[w].pc # "hung") /\ (\A q \in Reqs : req[q] = "returned" \/ ENABLED Return(q))
 \* bookkeeping invariants of the repaired replicator
 QueueMatchesWorkers == ~Pinned => Len(queue) = Cardinality({w \in W : workers[w].pc = "spawned"})
-NoDeadWorkers == ~Pinned => \A w \in W : workers[w].pc \notin {"dead", "failed", "hung"}
+NoDeadWorkers == ~Pinned => \A w \in W : /\ workers[w].pc \notin {"dead", "hung"}
+                                         /\ (workers[w].pc = "failed" => workers[w].item \in Flaky)
 SemOK == sem <= Conc /\ sem = inProg
 \* liveness form
 Eventually == <>[](GoodReach(SeqToSet(ReqHeads[NReq])) \subseteq log)
